@@ -184,6 +184,15 @@ func (vc *VC) frameObligations(fn *ssa.Function, ct *Contract, te *TEnv, final *
 					continue
 				}
 			}
+			if x.Fn == "mapof" {
+				tv := teOld.term(x.Args[0])
+				if mt, ok := types.Unalias(tv.gt).Underlying().(*types.Map); ok && tv.gt != nil {
+					fr := &frame{vc: vc}
+					pk, _, vk, _ := fr.mapHeaps(mt)
+					dess = append(dess, des{pk, tv.t}, des{vk, tv.t})
+					continue
+				}
+			}
 			if x.Fn == "elems" {
 				tv := teOld.term(x.Args[0])
 				if sl, ok := types.Unalias(tv.gt).Underlying().(*types.Slice); ok && tv.gt != nil {
